@@ -8,6 +8,7 @@ import math
 from ..core import Discard, Violation, stable_hash
 from ..models import value_model as vm
 from ..node import NodeError
+from . import layoutb
 
 PROP = "C14"
 
@@ -139,6 +140,8 @@ ILL = [["endlist"], ["endtuple"], ["endrecord"], ["field", "x"], ["field", "q"],
 
 
 def generate(rng, opts):
+    if rng.random() < opts.get("builder_layoutbuilder_share", 0.25):
+        return layoutb.generate(rng, opts)      # the Form-driven front end
     g = Gen(rng, opts)
     r = rng
     nvalues = r.randint(1, opts.get("builder_max_values", 8))
@@ -412,6 +415,8 @@ def dump(node, h):
 
 
 def execute(node, case, rec, opts):
+    if case.get("mode") == "layoutbuilder":
+        return layoutb.execute(node, case, rec, opts)
     model = BuilderModel()
     b = B(node, case["initial"], case["resize"], case["via"], case["field_mode"])
     twin = B(node, case["twin"][0], case["twin"][1], 0, case["field_mode"])
@@ -610,6 +615,8 @@ def execute(node, case, rec, opts):
 
 # ================================================================================================ measures
 def signature(case):
+    if case.get("mode") == "layoutbuilder":
+        return layoutb.signature(case)
     kinds = []
     last = None
     for ev in case["events"]:
@@ -622,12 +629,17 @@ def signature(case):
 
 
 def describe(case):
+    if case.get("mode") == "layoutbuilder":
+        return layoutb.describe(case)
     return {"initial": case["initial"], "resize": case["resize"], "twin": case["twin"], "field_mode": case["field_mode"],
             "via_extern_c": case["via"], "events": case["events"]}
 
 
 # ================================================================================================ shrinking
 def shrink_candidates(case):
+    if case.get("mode") == "layoutbuilder":
+        yield from layoutb.shrink_candidates(case)
+        return
     ev = case["events"]
     n = len(ev)
     size = n // 2
@@ -706,18 +718,30 @@ ASSUMPTIONS = [
     "entry points get interned names (address equality = string equality)",
     "ak.from_iter / ak.ArrayBuilder (pybind11, Python) cannot be built here: the same command stream is issued "
     "through the C++ ArrayBuilder API and the extern \"C\" awkward_ArrayBuilder_* functions",
+    "LayoutBuilder (a quarter of the runs, machines/layoutb.py) is driven inside the grammar this version implements: "
+    "bool/int64/float64 leaves, strings, ListOffsetArray64, RegularArray (size >= 1), RecordArray whose direct fields "
+    "are leaves, strings or lists, IndexedOptionArray64 and UnionArray8_64 of leaves outside records, UnmaskedArray; an "
+    "option's content does not itself start with an optional value (the command 'null' would be ambiguous). Not "
+    "implemented by the component and therefore not generated: complex128 (no Forth output dtype), null for "
+    "Byte/BitMasked forms, unions of lists, option/union/record/regular fields directly in a record, length()",
+    "a LayoutBuilder snapshot taken in the middle of a value only has to be survivable (it may be an unreadable "
+    "layout); values and validity are compared at value boundaries",
 ]
 COMPONENTS = {"real": ["src/libawkward/builder/*.cpp", "GrowableBuffer", "array classes produced by snapshot()",
+                       "src/libawkward/layoutbuilder/*.cpp with the ForthMachine32 it compiles its Form into (Form::fromjson)",
                        "simplify_uniontype / simplify_optiontype", "validityerror", "Form::tojson"],
               "stub": ["rapidjson (framework stub; used by Form::tojson and parameter comparison)"],
-              "absent": ["pybind11 layer (builder_fromiter)", "Python layer (ak.from_iter, ak.ArrayBuilder)",
-                         "LayoutBuilder (not driven by this check)"]}
+              "absent": ["pybind11 layer (builder_fromiter)", "Python layer (ak.from_iter, ak.ArrayBuilder, ak.layout.LayoutBuilder32/64)"]}
 RULE = ("one run = seeded typed value trees linearised into the builder alphabet exactly as from_iter would issue "
         "them, interleaved with reader events (snapshot, re-read of every live older snapshot after every event, "
         "drop), clear, append/extend of earlier snapshots, ill-nested commands and builder destruction; a twin builder "
         "with other growth settings receives the same commands. distinct = hash of (run-length-collapsed command "
-        "kind sequence, knob classes); non-trivial = at least 5 events or a fault kind fired")
-REQUIRED_PROBES = {"quick": ["old_snapshot_reread"], "thorough": ["old_snapshot_reread", "append_out_of_range_refused"]}
+        "kind sequence, knob classes); non-trivial = at least 5 events or a fault kind fired. A quarter of the runs drive "
+        "the Form-driven LayoutBuilder instead: a seeded type, its Form, seeded values as command sequences, snapshots "
+        "at value boundaries and in the middle of values, a twin under other growth settings, one ill-typed or "
+        "ill-nested command")
+REQUIRED_PROBES = {"quick": ["old_snapshot_reread", "lb_snapshots_compared", "lb_old_snapshot_reread"],
+                   "thorough": ["old_snapshot_reread", "append_out_of_range_refused", "lb_snapshots_compared", "lb_ill_refused"]}
 
 
 def match_predicate(where, case, violation):
